@@ -73,10 +73,12 @@ M = [
  ("C15-warning-as-info", "C15", "src/directive.rs", "Directive::Warning => \"warning\",", "Directive::Warning => \"info\",", "warnings recorded as plain messages"),
  ("C15-line-off-by-one-in-if", "C15", "src/directive.rs", "                            Err(e) => bail!(\"{} in {}\", e, point),\n                        };\n                        if value == 0 {", "                            Err(e) => bail!(\"{} in line: {}\", e, point.line_num + 1),\n                        };\n                        if value == 0 {", ".if errors name the following line"),
  # ---- C16 robustness
- ("C16-undef-index", "C16", "src/directive.rs", "                    if let Some(Operand::E(Expr::Ident(name))) = values.first() {\n                        context.push_to_last((point, Item::Undef(name.clone())))", "                    if let Operand::E(Expr::Ident(name)) = &values[0] {\n                        context.push_to_last((point, Item::Undef(name.clone())))", ".undef without operand panics again"),
+ ("C16-undef-index", "C16", "src/directive.rs", "                    if values.is_empty() {\n                        bail!(\"Not allowed type of arguments for .{}, {}\", self, point);\n                    }\n                    for value in values {", "                    let _first = &values[0];\n                    for value in values {", ".undef without operand panics again"),
  ("C16-includepath-unwrap", "C16", "src/directive.rs", "let mut current_path = current_path\n                                .parent()\n                                .map(|p| p.to_path_buf())\n                                .unwrap_or_default();", "let mut current_path = current_path.parent().unwrap().to_path_buf();", "relative .includepath in a macro body panics again"),
  ("C16-line-limit-huge", "C16", "src/parser.rs", "pub const MAX_LINE_OPERATORS: usize = 200;", "pub const MAX_LINE_OPERATORS: usize = 500_000;", "expression ladders overflow the stack again"),
  ("C16-macro-depth-huge", "C16", "src/builder/pass0.rs", "const MAX_MACRO_DEPTH: usize = 128;", "const MAX_MACRO_DEPTH: usize = 128_000_000;", "recursive macros run away again"),
+ ("C10-duplicate-def-ignored", "C10", "src/builder/pass2.rs", "                if common_context.exist(&alias.to_lowercase()) {\n                    // TODO: add display current string of mistake and previous location\n                    bail!(\"Identifier {} is used twice, {}\", alias, line);\n                }\n                common_context.set_def", "                common_context.set_def", "second .def of a taken name silently ignored again (fix bef9b26 undone by hand)"),
+ ("C11-directory-shadows-file", "C11", "src/parser.rs", "            if full_path.as_path().is_file() {", "            if full_path.as_path().exists() {", "a directory with the name of an included file ends the search again (part of fix a9de6e3 undone by hand)"),
  # ---- C17 independence
  ("C17-device-cache", "C17", "src/context.rs", "            device: Rc::new(RefCell::new(Some(Device::new(0)))),", "            device: Rc::new(RefCell::new(Some(LAST_DEVICE.with(|d| d.borrow().clone())))),", "context starts from a thread-local 'last device' cache"),
  ("C17-include-cache-by-name", "C17", "src/parser.rs", "    let include_paths = RefCell::new(include_paths);\n\n    let file_context", "    let cache_key = current_path.file_name().map(|n| n.to_string_lossy().to_string()).unwrap_or_default();\n    let source = INCLUDE_CACHE.with(|c| c.borrow_mut().entry(cache_key).or_insert(source).clone());\n    let include_paths = RefCell::new(include_paths);\n\n    let file_context", "included files cached per thread by file name"),
@@ -112,10 +114,8 @@ REVERTS = [
  ("R-unparsable-nested-if", "C08", "1c8ebd6", "nested .if the grammar rejects not counted while skipping"),
  ("R-register-like-symbols", "C10", "77de2f2", "-zero / r2d2 read as registers"),
  ("R-ld-ldd-cross-forms", "C04", "7ec7a6a", "ldd r0, Y+ / ld r0, Y+5 assemble to the other mnemonic"),
- ("R-duplicate-def", "C10", "bef9b26", "second .def of a taken name silently ignored"),
  ("R-duplicate-equ", "C10", "7e031f3", ".equ defined twice / clashing with a label accepted"),
  ("R-includepath-in-included-file", "C11", "6182b21", ".includepath inside an included file forgotten at its end"),
- ("R-include-directory", "C11", "a9de6e3", "directory shadows a file; read errors do not name the file"),
  ("R-device-two-operands", "C12", "e22c5cc", ".device A, B accepted"),
  ("R-org-before-switch", "C02", "9630515 63de58d", ".org directly followed by a segment switch is lost"),
  ("R-includepath-panic", "C16", "7410e14", "relative .includepath in a macro body panics"),
